@@ -52,6 +52,13 @@ def decorate(rng, text):
             if ms:
                 m = rng.choice(ms)
                 l = l[:m.end() - 1] + "\n" + l[m.end():]
+        # a statement need not start at column 0: indented, or after another statement on the same line
+        # (with the line break above, a multi-line declaration whose first and last line start at different columns)
+        if (l.startswith("let ") or l.startswith("res ")) and rng.random() < 0.3:
+            if out and out[-1].rstrip().endswith(";") and rng.random() < 0.5:
+                out[-1] = out[-1] + " " + l
+                continue
+            l = " " * rng.randint(1, 6) + l
         out.append(l)
         if rng.random() < 0.15:
             out.append("")
